@@ -553,7 +553,13 @@ def latest_mjd(plate, **kwargs):
     mjd = np.zeros(len(platevec), dtype='i4')
     mjdre = re.compile(r'spPlate-[0-9]{4}-([0-9]{5}).fits')
     unique_plates = np.unique(platevec)
-    paths = spec_path(unique_plates, **kwargs)
+    #
+    # Callers such as readspec() forward all of their keywords (run1d, align,
+    # znum, ...); spec_path() only understands these.
+    #
+    path_kwargs = dict([(k, kwargs[k]) for k in ('path', 'topdir', 'run2d')
+                        if k in kwargs])
+    paths = spec_path(unique_plates, **path_kwargs)
     for p, q in zip(paths, unique_plates):
         plateglob = "{0}/spPlate-{1:04d}-*.fits".format(p, q)
         bigmjd = 0
